@@ -32,7 +32,7 @@ def err_term(e, intern):
         pt = ser.path_term(p, intern)
     except Exception:
         pt = '[]'
-    return f'(Err {kind} {pt})', kind
+    return f'(@Err node {kind} {pt})', kind
 
 
 def parse_stages(texts, safes=None, names=None):
